@@ -10,6 +10,7 @@ import Proofs.C15Zip
 import Proofs.C15Png
 import Proofs.C15Gz
 import FqModel.ContainerTar
+import Proofs.C15Infl
 /-!
   C15 — container decoders report what independent writers stored: property theorems.
 
@@ -679,5 +680,93 @@ theorem tarOld_base256_size_rejected :
     (writeTar [exMemberB]).length = 2048 ∧
     tarOldParse (writeTar [{ exMemberB with b256 := false }]) = parseTar (writeTar [{ exMemberB with b256 := false }]) := by
   decide +kernel
+
+/-! ## the inflater's output is reported whole: no bound on its size or on size / compressed size
+
+  `FieldReaderRange` / `TryFieldReaderRangeFormat` / `FieldFormatReaderLen` (pkg/decode/decode.go:1186-1249) `io.ReadAll` the
+  reader the format hands them; gzip.go:107, zip.go:468 and png.go:131/148 hand them `flate.NewReader` / `zlib.NewReader`
+  unwrapped.  The inflater stays an abstract parameter (library code, trusted); the only hypothesis about it is that it returns
+  `payload` for the member's compressed range — nothing about `payload.length` or `payload.length / z.length`. -/
+
+/-- For every member and EVERY payload: if the inflater returns `data` for the member's compressed range then
+    * gzip (gzip.go:102-127): `uncompressed` = data, `compressed` = the stream, crc32 `valid` (CRC-32 over the whole payload),
+      ISIZE = length mod 2^32;
+    * zip, sizes in the local header (zip.go:453-490, window = compressed_size bytes): `uncompressed` = data, `compressed` = z;
+    * zip, streamed member (compressed_size 0, window = the rest of the file, sizes in the data descriptor that is read at
+      `compressedStart + consumed`): `uncompressed` = data, `compressed` = the consumed bytes;
+    * zlib framed png chunks (zTXt / iCCP, png.go:131/148 through compress/zlib's reader): data recovered with the stored Adler-32. -/
+theorem container_reports_inflated_payload :
+    (∀ (inflate : Bytes → Option (Nat × Bytes)) (z data rest : Bytes),
+        inflate (z ++ (writeGzTrailer data ++ rest)) = some (z.length, data) →
+        parseGzBody inflate 8 (z ++ (writeGzTrailer data ++ rest)) =
+          some ({ clen := z.length, crc := (crc32 data).toNat, crcDesc := "valid", isize := data.length % 2 ^ 32, data := data }, rest)) ∧
+    (∀ (inflate : Nat → Bytes → Option (Nat × Bytes)) (off used : Nat) (z data tail : Bytes), z ≠ [] →
+        inflate off z = some (used, data) →
+        zipBody inflate off 8 z.length (z ++ tail) = some (some data, some z.length, z.length)) ∧
+    (∀ (inflate : Nat → Bytes → Option (Nat × Bytes)) (off : Nat) (z data tail : Bytes),
+        inflate off (z ++ tail) = some (z.length, data) →
+        zipBody inflate off 8 0 (z ++ tail) = some (some data, some z.length, z.length)) ∧
+    (∀ (inflate : Bytes → Option (Nat × Bytes)) (cinfo flevel : Nat), cinfo ≤ 7 → flevel ≤ 3 → ∀ (z data rest : Bytes),
+        inflate (z ++ (toBE 4 (adler32 data) ++ rest)) = some (z.length, data) →
+        ∃ ok, parseZlib inflate (writeZlib cinfo flevel none z data ++ rest) = .ok (ok, rest) ∧ ok.data = data ∧ ok.clen = z.length ∧
+          ok.adler = adler32 data) :=
+  ⟨fun inflate z data rest h => gz_body_rt inflate z data rest h,
+   fun inflate off used z data tail hz h => zipBody_hdr inflate off used z data tail hz h,
+   fun inflate off z data tail h => zipBody_streamed inflate off z data tail h,
+   fun inflate cinfo flevel hc hl z data rest h => ⟨_, zlib_roundtrip inflate cinfo flevel hc hl z data rest h, rfl, rfl, rfl⟩⟩
+
+/-- the hypotheses are satisfiable by a payload 2000 times as long as its compressed range (nothing is evaluated on it) -/
+example : zipBody (fun _ _ => some (5, List.replicate 10000 0x61)) 0 8 5 ([1, 2, 3, 4, 5] ++ [9]) =
+    some (some (List.replicate 10000 0x61), some 5, 5) :=
+  zipBody_hdr _ 0 5 [1, 2, 3, 4, 5] _ [9] (by decide) rfl
+
+/-- RFC 1951 arithmetic behind the assumption `DeflateRatioExceeds 1000`: a length/distance pair copies up to 258 bytes and can
+    be coded in 2 bits, i.e. 1032 output bytes per input byte in the limit (the assumption itself — that such a stream exists for
+    the inflater in use — is not proved; the `swp` lines observe 2 097 152 bytes from 2 053) -/
+theorem deflate_ratio_can_exceed_1000_arith : 258 * 8 / 2 = 1032 ∧ 1000 < 258 * 8 / 2 ∧ 1000 * 2053 < 2097152 := by decide
+
+/-- a decoder that cuts the inflater's output at `1000 × length of the compressed range` (io.LimitReader "deflate bomb guard",
+    the seeded change S6-C15-1) violates `container_reports_inflated_payload` as soon as DEFLATE exceeds that ratio: -/
+theorem limited_inflater_violates (inflate : Bytes → Option (Nat × Bytes)) (u : Nat → Nat) (h : DeflateRatioExceeds 1000 inflate) :
+    ¬ (∀ (off used : Nat) (z data tail : Bytes), z ≠ [] → inflate z = some (used, data) →
+        zipBody (fun _ => limitInflate 1000 u inflate) off 8 z.length (z ++ tail) = some (some data, some z.length, z.length)) := by
+  intro hall
+  obtain ⟨z, data, hz, hinf, hbig⟩ := h
+  obtain ⟨u', d', hl, hlen⟩ := limitInflate_short 1000 u inflate z z.length data hinf hbig
+  have h1 := hall 0 z.length z data [] hz hinf
+  have h2 := zipBody_hdr (fun _ => limitInflate 1000 u inflate) 0 u' z d' [] hz hl
+  rw [h1] at h2
+  have : data = d' := by injection h2 with h2; injection h2 with h2; injection h2
+  rw [this] at hbig; omega
+
+/-- the concrete pair of the assumption (compressed length 2 053, payload length 2 097 152 = 2 MiB of one byte value at
+    level 6): the limited decoder shows 2 053 000 bytes — a clean, wrong `uncompressed` -/
+theorem limited_inflater_truncates_2MiB (inflate : Bytes → Option (Nat × Bytes)) (u : Nat → Nat) (z data tail : Bytes)
+    (hz : z.length = 2053) (hd : data.length = 2097152) (hinf : inflate z = some (z.length, data)) :
+    ∃ d', zipBody (fun _ => limitInflate 1000 u inflate) 0 8 z.length (z ++ tail) = some (some d', some 2053, 2053) ∧
+      d'.length = 2053000 ∧ d' ≠ data := by
+  have hne : z ≠ [] := by intro h; rw [h] at hz; simp at hz
+  obtain ⟨u', d', hl, hlen⟩ := limitInflate_short 1000 u inflate z z.length data hinf (by omega)
+  refine ⟨d', ?_, by omega, fun h => by rw [h] at hlen; omega⟩
+  have := zipBody_hdr (fun _ => limitInflate 1000 u inflate) 0 u' z d' tail hne hl
+  rw [hz] at this ⊢; exact this
+
+/-- gzip: the window is the rest of the file (stream + 8 byte trailer + following members); the limited decoder never reports
+    a payload longer than 1000 × that window, so an intact member with a longer payload is not reported as written
+    (in fq: the consumed length is then wrong as well and the trailer is read from the wrong place — a decode error) -/
+theorem limited_inflater_gzip_violates (inflate : Bytes → Option (Nat × Bytes)) (u : Nat → Nat) (z data rest : Bytes)
+    (hinf : inflate (z ++ (writeGzTrailer data ++ rest)) = some (z.length, data))
+    (hbig : 1000 * (z ++ (writeGzTrailer data ++ rest)).length < data.length) :
+    ∀ b r, parseGzBody (limitInflate 1000 u inflate) 8 (z ++ (writeGzTrailer data ++ rest)) = some (b, r) → b.data ≠ data := by
+  intro b r hp
+  obtain ⟨u', d', hl, hlen⟩ := limitInflate_short 1000 u inflate _ z.length data hinf hbig
+  unfold parseGzBody at hp
+  simp only [ne_eq, not_true_eq_false, if_false, hl, Option.bind_eq_bind, Option.bind_some] at hp
+  have hb : b.data = d' := by
+    simp only [Option.bind_eq_some_iff] at hp
+    obtain ⟨p1, _, p2, _, ds, _, p3, _, hp⟩ := hp
+    simp only [Option.pure_def, Option.some.injEq, Prod.mk.injEq] at hp
+    rw [← hp.1]
+  rw [hb]; intro h; rw [h] at hlen; omega
 
 end Props.C15
